@@ -13,6 +13,22 @@ import (
 	"time"
 )
 
+func prim_sameslice(a, b []byte) bool {
+	return len(a) == len(b) && (len(a) == 0 || &a[0] == &b[0])
+}
+
+func prim_eqbytes(a, b []byte) bool {
+	if len(a) != len(b) {
+		return false
+	}
+	for i := range a {
+		if a[i] != b[i] {
+			return false
+		}
+	}
+	return true
+}
+
 func prim_forall(n int, f func(i int) bool) bool {
 	for i := 0; i < n; i++ {
 		if !f(i) {
@@ -33,6 +49,9 @@ func ghost_rd_at(r io.Reader, i int) byte { panic("ghost") }
 //@ assigns maskBytes b[*]
 //@ ensures maskBytes C14.mask.pos
 func ens_maskBytes(pos int, b []byte, ret0 int) bool { return ret0 == (pos+len(b))&3 }
+
+// (the engine models maskBytes itself as the RFC 6455 5.3 function: octet i becomes octet i XOR key[(pos+i) mod 4];
+// that model is trusted, see the evidence's trusted base)
 
 // ---------- C15: the write lock (a 1-slot channel holding a token) and the close-sent latch ----------
 
@@ -79,8 +98,25 @@ func ens_writeFatal_nonnil(err error, ret0 error) bool { return err == nil || re
 
 //@ assigns (*Conn).writeFatal c.writeErr, c.writeErrMu
 
+// both callers (flushFrame, WritePreparedMessage) pass exactly two buffers: the frame up to the end of the write
+// buffer, and the caller's own bytes that were not copied ("extra", possibly empty)
 //@ requires (*Conn).write
-func req_write(c *Conn) bool { return spec_wfWriterLock(c) }
+func req_write(c *Conn, bufs [][]byte) bool { return spec_wfWriterLock(c) && len(bufs) == 2 }
+
+//@ unroll-complete (*Conn).write 0 3
+
+// on success the transport has received exactly the two buffers, in order, and nothing else
+//@ ensures (*Conn).write C13.write.transport
+func ens_write_transport(c *Conn, bufs [][]byte, ret0 error) bool {
+	if ret0 != nil {
+		return true
+	}
+	w, o := c.conn, ghost_old_wr_len(c.conn)
+	b0, b1 := bufs[0], bufs[1]
+	return ghost_wr_len(w) == o+len(b0)+len(b1) &&
+		prim_forall(len(b0), func(i int) bool { return ghost_wr_at(w, o+i) == b0[i] }) &&
+		prim_forall(len(b1), func(i int) bool { return ghost_wr_at(w, o+len(b0)+i) == b1[i] })
+}
 
 // the lock is released on every path; nothing is written once the latch is set; a successful Close sets the latch
 // inside the critical section; the latch never goes back
@@ -231,6 +267,174 @@ func at_flushFrame_write(w *messageWriter, old_w messageWriter, final bool, extr
 	return spec_wsHeaderOK(h, final, old_w.compress, old_w.frameType, masked, n)
 }
 
+func oldspec_pendingAt(w *messageWriter, i int) byte { return w.c.writeBuf[maxFrameHeaderSize+i] }
+
+// after the header come exactly the bytes that were pending in the write buffer (XORed with the key that precedes
+// them when the endpoint is a client, RFC 6455 5.3), and the second buffer is the caller's extra bytes themselves
+//@ at-call (*messageWriter).flushFrame write C13.frame.payload.shape
+func at_flushFrame_payloadShape(w *messageWriter, old_w messageWriter, extra []byte, arg_bufs [][]byte) bool {
+	m := old_w.pos - maxFrameHeaderSize
+	return len(arg_bufs) == 2 && len(arg_bufs[0]) == spec_wsHeaderLen(!w.c.isServer, m+len(extra))+m && prim_sameslice(arg_bufs[1], extra)
+}
+
+//@ at-call (*messageWriter).flushFrame write C13.frame.payload.server
+func at_flushFrame_payloadServer(w *messageWriter, old_w messageWriter, extra []byte, arg_bufs [][]byte) bool {
+	m := old_w.pos - maxFrameHeaderSize
+	hl := spec_wsHeaderLen(false, m+len(extra))
+	if !w.c.isServer || len(arg_bufs) != 2 || len(arg_bufs[0]) != hl+m {
+		return true
+	}
+	h := arg_bufs[0]
+	return prim_forall(m, func(i int) bool { return h[hl+i] == oldspec_pendingAt(w, i) })
+}
+
+//@ at-call (*messageWriter).flushFrame write C13.frame.payload.client
+func at_flushFrame_payloadClient(w *messageWriter, old_w messageWriter, extra []byte, arg_bufs [][]byte) bool {
+	m := old_w.pos - maxFrameHeaderSize
+	hl := spec_wsHeaderLen(true, m+len(extra))
+	if w.c.isServer || len(arg_bufs) != 2 || len(arg_bufs[0]) != hl+m {
+		return true
+	}
+	h := arg_bufs[0]
+	return prim_forall(m, func(i int) bool { return h[hl+i] == oldspec_pendingAt(w, i)^h[hl-4+i&3] })
+}
+
+// ---------- C13: the payload a message writer has accepted ----------
+// A message writer is an io.Writer: the bytes it has accepted for the current message are, in order, the payload bytes
+// already handed to the transport in earlier frames (a ghost byte stream owned by the writer, empty when the writer is
+// made, extended by flushFrame) followed by the bytes pending in the write buffer.
+//@ ghost-writer messageWriter
+
+func spec_flushed(w *messageWriter) int { return ghost_wr_len(w) }
+
+func spec_plLen(w *messageWriter) int { return ghost_wr_len(w) + w.pos - maxFrameHeaderSize }
+
+func spec_plAt(w *messageWriter, i int) byte {
+	if n := ghost_wr_len(w); i < n {
+		return ghost_wr_at(w, i)
+	}
+	return w.c.writeBuf[maxFrameHeaderSize+i-ghost_wr_len(w)]
+}
+
+func oldspec_plLen(w *messageWriter) int          { return spec_plLen(w) }
+func oldspec_plAt(w *messageWriter, i int) byte { return spec_plAt(w, i) }
+
+// flushFrame moves the pending bytes, then the caller's extra bytes, to the flushed part (this DEFINES the ghost stream;
+// C13.frame.payload.* above ties the same bytes to what the transport is given)
+//@ ghost-ensures (*messageWriter).flushFrame
+func gens_flushFrame(w *messageWriter, old_w messageWriter, extra []byte, ret0 error) bool {
+	if ret0 != nil {
+		return true
+	}
+	o, m := ghost_old_wr_len(w), old_w.pos-maxFrameHeaderSize
+	return ghost_wr_len(w) == o+m+len(extra) &&
+		prim_forall(o+m, func(i int) bool { return ghost_wr_at(w, i) == oldspec_plAt(w, i) }) &&
+		prim_forall(len(extra), func(i int) bool { return ghost_wr_at(w, o+m+i) == extra[i] })
+}
+
+func prim_disjoint(a, b []byte) bool { return true } // the slices share no memory; not observable at run time
+
+// the accepted payload is unchanged (as a sequence), whatever moved from the buffer to the transport
+func spec_plSame(w *messageWriter) bool {
+	return spec_plLen(w) == oldspec_plLen(w) && prim_forall(spec_plLen(w), func(i int) bool { return spec_plAt(w, i) == oldspec_plAt(w, i) })
+}
+
+// the accepted payload is the old one followed by the first n bytes of q (quantified over the absolute position j in the
+// payload, so that instances are found by matching on the position itself)
+func spec_plKept(w *messageWriter) bool {
+	return prim_forall(oldspec_plLen(w), func(j int) bool { return spec_plAt(w, j) == oldspec_plAt(w, j) })
+}
+
+func spec_plTail(w *messageWriter, q []byte, n int) bool {
+	o := oldspec_plLen(w)
+	return prim_forall(o+n, func(j int) bool { return j < o || spec_plAt(w, j) == q[j-o] })
+}
+
+// ncopy makes room (flushing a full buffer as one non-final frame) without touching the accepted payload
+//@ requires (*messageWriter).ncopy
+func req_ncopy(w *messageWriter, max int) bool { return spec_wfMessageWriter(w) && max >= 1 }
+
+//@ ensures (*messageWriter).ncopy C13.payload.ncopy
+func ens_ncopy(w *messageWriter, max int, ret0 int, ret1 error) bool {
+	if ret1 != nil {
+		return true
+	}
+	return spec_wfMessageWriter(w) && ret0 >= 1 && ret0 <= max && ret0 <= len(w.c.writeBuf)-w.pos
+}
+
+//@ ensures (*messageWriter).ncopy C13.payload.ncopy.same
+func ens_ncopy_same(w *messageWriter, ret1 error) bool { return ret1 != nil || spec_plSame(w) }
+
+//@ assigns (*messageWriter).ncopy ghost.wr(w), w.pos, w.frameType, w.compress, w.err, w.c.writeBuf[*], w.c.isWriting, w.c.writer, w.c.writeErr, w.c.writeErrMu, ghost.lock(w.c.mu), ghost.wr(w.c.conn), ghost.ioerr
+
+// Write: on success every byte of p, in order, has been added to the accepted payload and nothing else changed in it
+//@ requires (*messageWriter).Write
+func req_mwWrite(w *messageWriter, p []byte) bool { return spec_wfMessageWriter(w) && prim_disjoint(p, w.c.writeBuf) }
+
+//@ ensures (*messageWriter).Write C13.payload.write.count
+func ens_mwWrite_n(w *messageWriter, old_p []byte, ret0 int, ret1 error) bool {
+	return ret1 != nil || ret0 == len(old_p) && spec_plLen(w) == oldspec_plLen(w)+len(old_p)
+}
+
+//@ invariant (*messageWriter).Write 0
+func inv_mwWrite0(w *messageWriter, old_p []byte, p []byte, nn int) bool {
+	done := len(old_p) - len(p)
+	return spec_wfMessageWriter(w) && nn == len(old_p) && done >= 0 && prim_disjoint(p, w.c.writeBuf) && spec_plLen(w) == oldspec_plLen(w)+done
+}
+
+//@ invariant (*messageWriter).Write 0
+func inv_mwWrite0_rest(old_p []byte, p []byte) bool {
+	done := len(old_p) - len(p)
+	return done >= 0 && prim_eqbytes(p, old_p[done:])
+}
+
+//@ decreases (*messageWriter).Write 0
+func dec_mwWrite0(p []byte) int { return len(p) }
+
+//@ assigns (*messageWriter).Write ghost.wr(w), w.pos, w.frameType, w.compress, w.err, w.c.writeBuf[*], w.c.isWriting, w.c.writer, w.c.writeErr, w.c.writeErrMu, ghost.lock(w.c.mu), ghost.wr(w.c.conn), ghost.ioerr
+
+// WriteString: same accounting as Write
+//@ requires (*messageWriter).WriteString
+func req_mwWriteString(w *messageWriter) bool { return spec_wfMessageWriter(w) }
+
+//@ ensures (*messageWriter).WriteString C13.payload.writestring.count
+func ens_mwWriteString_n(w *messageWriter, old_p string, ret0 int, ret1 error) bool {
+	return ret1 != nil || ret0 == len(old_p) && spec_plLen(w) == oldspec_plLen(w)+len(old_p)
+}
+
+//@ invariant (*messageWriter).WriteString 0
+func inv_mwWriteString0(w *messageWriter, old_p string, p string, nn int) bool {
+	done := len(old_p) - len(p)
+	return spec_wfMessageWriter(w) && nn == len(old_p) && done >= 0 && spec_plLen(w) == oldspec_plLen(w)+done
+}
+
+//@ decreases (*messageWriter).WriteString 0
+func dec_mwWriteString0(p string) int { return len(p) }
+
+//@ assigns (*messageWriter).WriteString ghost.wr(w), w.pos, w.frameType, w.compress, w.err, w.c.writeBuf[*], w.c.isWriting, w.c.writer, w.c.writeErr, w.c.writeErrMu, ghost.lock(w.c.mu), ghost.wr(w.c.conn), ghost.ioerr
+
+// ReadFrom: every byte taken from the reader is accounted for in the accepted payload and in the count returned,
+// also when the reader hands over its last bytes together with io.EOF
+//@ requires (*messageWriter).ReadFrom
+func req_mwReadFrom(w *messageWriter, r io.Reader) bool { return spec_wfMessageWriter(w) && r != nil }
+
+//@ ensures (*messageWriter).ReadFrom C13.payload.readfrom.count
+func ens_mwReadFrom_n(w *messageWriter, r io.Reader, nn int64, err error) bool {
+	if err != nil {
+		return true
+	}
+	return int(nn) == ghost_rd_pos(r)-ghost_old_rd_pos(r) && (oldspec_werr(w) != nil || spec_plLen(w) == oldspec_plLen(w)+int(nn))
+}
+
+func oldspec_werr(w *messageWriter) error { return w.err }
+
+//@ invariant (*messageWriter).ReadFrom 0
+func inv_mwReadFrom0(w *messageWriter, r io.Reader, nn int64) bool {
+	return spec_wfMessageWriter(w) && int(nn) == ghost_rd_pos(r)-ghost_old_rd_pos(r) && nn >= 0 && spec_plLen(w) == oldspec_plLen(w)+int(nn)
+}
+
+//@ assigns (*messageWriter).ReadFrom ghost.rd(r), ghost.wr(w), w.pos, w.frameType, w.compress, w.err, w.c.writeBuf[*], w.c.isWriting, w.c.writer, w.c.writeErr, w.c.writeErrMu, ghost.lock(w.c.mu), ghost.wr(w.c.conn), ghost.ioerr
+
 // RSV1 is only ever set on the first frame of a message, and the frames after the first are continuation frames
 //@ ensures (*messageWriter).flushFrame C13.frame.sequencing
 func ens_flushFrame_seq(w *messageWriter, final bool, ret0 error) bool {
@@ -240,10 +444,16 @@ func ens_flushFrame_seq(w *messageWriter, final bool, ret0 error) bool {
 	return !w.compress && (final || w.frameType == continuationFrame && w.pos == maxFrameHeaderSize)
 }
 
+// after a non-final frame the writer is ready for the next one
+//@ ensures (*messageWriter).flushFrame C13.flush.ready
+func ens_flushFrame_ready(w *messageWriter, final bool, ret0 error) bool {
+	return ret0 != nil || final || spec_wfMessageWriter(w)
+}
+
 //@ ensures (*messageWriter).flushFrame C15.balanced
 func ens_flushFrame_balanced(w *messageWriter) bool { return !prim_chanheld(w.c.mu) }
 
-//@ assigns (*messageWriter).flushFrame w.*, w.c.writeBuf[*], w.c.isWriting, w.c.writer, w.c.writeErr, w.c.writeErrMu, ghost.lock(w.c.mu), ghost.wr(w.c.conn), ghost.ioerr
+//@ assigns (*messageWriter).flushFrame ghost.wr(w), w.pos, w.frameType, w.compress, w.err, w.c.writeBuf[*], w.c.isWriting, w.c.writer, w.c.writeErr, w.c.writeErrMu, ghost.lock(w.c.mu), ghost.wr(w.c.conn), ghost.ioerr
 
 // the reader side of a connection as newConnBRW builds it
 func spec_wfReader(c *Conn) bool {
